@@ -144,10 +144,18 @@ struct ScriptProposal<S, F> {
     states: Vec<Vec<S>>,
     lq: Vec<Vec<F>>,
     next: usize,
+    calls_this_step: usize,
 }
 impl<S: StateElem, F: Float> Proposal<S, F> for ScriptProposal<S, F> {
     fn sample(&mut self, _current: &[S]) -> Vec<S> {
-        self.states[self.next].clone()
+        // the scripted candidate on the first call of a step; were the step to ask again, it gets
+        // a different state (so a "retry" cannot hide behind drawing the same candidate twice)
+        self.calls_this_step += 1;
+        if self.calls_this_step == 1 {
+            self.states[self.next].clone()
+        } else {
+            self.states[(self.next + self.calls_this_step - 1) % self.states.len()].clone()
+        }
     }
     fn logp(&self, from: &[S], to: &[S]) -> F {
         self.lq[from[0].to_index()][to[0].to_index()]
@@ -268,6 +276,7 @@ where
         states: states.clone(),
         lq: lq.clone(),
         next: 0,
+        calls_this_step: 0,
     };
     let mut chain: MHMarkovChain<S, F, _, _> =
         MHMarkovChain::new(target, proposal, states[0].clone());
@@ -284,6 +293,7 @@ where
             let mut probe = |kk: u64, rep: &mut Report, salt: u64| -> Option<bool> {
                 chain.current_state = states[x].clone();
                 chain.proposal.next = y;
+                chain.proposal.calls_this_step = 0;
                 chain.rng = F::craft(kk, salt);
                 let u: F = F::peek(&chain.rng);
                 let res = guard(|| chain.step().clone());
@@ -699,9 +709,14 @@ fn shadow_run<S, F, D, Q>(
                 return;
             }
         };
-        if chain.proposal.samples.len() != 1 {
-            rep.inconclusive("proposal sampled a number of times other than once");
+        if chain.proposal.samples.is_empty() {
+            rep.inconclusive("proposal not sampled in this step");
             continue;
+        }
+        // the candidate of the step is the first one drawn: a step that goes on to draw another one
+        // and ends there is judged against the rule for the first (it ends at neither x nor y)
+        if chain.proposal.samples.len() > 1 {
+            rep.count("steps_in_which_the_proposal_was_sampled_more_than_once");
         }
         let y = chain.proposal.samples[0].clone();
         let lp_x = target.unnorm_logp(&x);
